@@ -74,6 +74,18 @@ NOTES = {
  "C19-B": "Reported under C02 (setkey deviates from the documented admission table); the C19 check itself is silent: the callback's choice is still subject to the table the contract states.",
  "C20-A": "NOT DECIDED (exit 2): token bytes read from stdin are not modelled by the tool environment, and the loop contract's frame names the fixed-size buffer the change replaces.",
  "C20-B": "First MISSED under C20/C08/C07; caught since the completeness unit C08.openssl_process_ec.complete was added (a d with a leading zero octet is a well-formed member).",
+ "C10-C": "First NOT DECIDED (json_copy / json_integer_set were outside the modelled environment). Both are modelled now: the TOP unit's clause 'two deep copies, of the builder's headers and claims' refutes the shallow copy. The C13 and C15 checks are silent (each half is harmless alone; the sharing is not visible in the one-member JSON model).",
+ "C16-C": "First MISSED: no scenario looked a kid up around jwks_item_free_bad. The free_bad scenario now does (before and after).",
+ "C16-D": "NOT DECIDED (exit 2): jwks_process is restructured around a local staging list; its loop contract no longer describes the loop and the unit times out. The bounded C16 scenarios do not load documents.",
+ "C17-C": "First reported under C01 only; the verify chain (jwt_verify_sig, _verify_sha_hmac, jwt_sign, jwt_verify_complete) is now also listed under C17.",
+ "C17-D": "First NOT DECIDED (the added jwks_free walks the ring: time-out). jwks_free is now replaced by a recording contract in the jwks_process unit and the contract says the set handed in is never released.",
+ "C07-C": "First NOT DECIDED (EVP_PKEY_CTX_new_from_pkey / EVP_PKEY_pairwise_check outside the model). Modelled now, and the importers' contracts say that an item reporting an error owns no key object.",
+ "C07-D": "Caught by the snprintf model's assertion that a format string is not run-time data.",
+ "C20-C": "First NOT DECIDED (both units timed out on the new drain loop). Unknown loops of the function under verification now get a default bound; the bounded stdin unit (thorough tier) refutes 'every supplied token verified => exit status 0'.",
+ "C05-C": "Reported under C14 and C13 (TOP verify clauses); the C05 check itself is silent (round trip is stated per call).",
+ "C05-D": "Reported under C10 (as C10-B / C05-B).",
+ "C04-D": "Reported under C06 (the flag handed to json_loads is part of jwt_base64uri_decode_to_json's contract, listed under C06; C04's statement names it, its unit list does not include that unit).",
+ "C20-D": "Reported under C08 (completeness of import); the C20 check is silent (the tools' units do not import keys).",
  "C05-B": "Reported under C10 (time-claim clauses carry the C10 label); the C05 check itself is silent.",
  "C06-B": "Reported under C14 (message handling clauses).",
  "C18-A": "Caught through the argument obligation of the HMAC model (a NULL output buffer is libcrypto's static buffer) and the frame of the provider entry.",
